@@ -59,7 +59,7 @@ func Script(t *tape.Tape, max int, conflicts bool, exotic ...bool) []Edit {
 		if conflicts && t.Bool(2, 3) {
 			p = gen.Pool[gen.ConflictIdx[t.Draw(len(gen.ConflictIdx))]]
 		} else {
-			p = gen.Pool[t.Draw(len(gen.Pool)-1)] // never the vendor path: dst strips it on decorate only
+			p = gen.Pool[t.Draw(gen.NumPlain)] // never the vendor path: dst strips it on decorate only
 		}
 		e.Path = p.Path
 		if len(exotic) > 0 && exotic[0] && t.Bool(1, 12) {
